@@ -18,7 +18,7 @@ PickShape == /\ Idle /\ Can /\ ntx < MaxTx
              /\ \E f \in Users, sh \in Shapes : pend' = [stage |-> 1, from |-> f, sh |-> sh]
              /\ UNCHANGED mvars
 PickValue == /\ pend.stage = 1
-             /\ \E v \in ValueChoices(w, pend.from) : pend' = [pend EXCEPT !.stage = 2] @@ [value |-> v]
+             /\ \E v \in ValueChoicesFor(w, pend.from, pend.sh.to) : pend' = [pend EXCEPT !.stage = 2] @@ [value |-> v]
              /\ UNCHANGED mvars
 Fire == /\ pend.stage = 2
         /\ \E l \in LimitChoices(w, price, pend.from, pend.sh, pend.value) :
